@@ -23,7 +23,7 @@ func init() {
 				"(once) guard/marker rule: the state the skip gate READS must intersect the state the punishment WRITES, otherwise a second evidence entry against the same validator in one block is punished again (found: the gate read only Status and list membership, which the punishment never changes — repaired by also skipping validators already marked to-drop). " +
 				"NOT decided: the 5 % arithmetic and its rounding, that Tendermint's vote info is truthful.",
 			Assumptions: stdAssumptions,
-			Rules:       []string{"C18.jail", "C18.absent", "C18.byz", "C18.once", "C18.window", "C18.fresh", "C18.allstakes"},
+			Rules:       []string{"C18.jail", "C18.absent", "C18.byz", "C18.once", "C18.window", "C18.fresh", "C18.allstakes", "C18.drop", "C18.addr"},
 		},
 		Run: runC18,
 	})
@@ -109,6 +109,8 @@ func constOf(c *core.Ctx, pkg, name string) (int64, bool) {
 
 func runC18(c *core.Ctx) {
 	defer checkAbsentWindowPersisted(c, "C18.window")
+	defer checkDropFlag(c, "C18.drop")
+	defer checkTmAddressFollowsKey(c, "C18.addr")
 	defer checkSparseStakes(c, "C18.allstakes")
 	defer func() {
 		// records built per iteration in the consensus packages (the validator list of
@@ -587,4 +589,155 @@ func checkSparseStakes(c *core.Ctx, rule string) {
 		c.OK(rule, "loops", token.NoPos, fmt.Sprintf("%d nil tests of stake slots inside loops: each continues with the next slot", n))
 	}
 	c.Floor(rule, n, 3, "nil tests of stake slots inside loops of the candidates module")
+}
+
+// checkDropFlag — a validator marked to be dropped (jailed for absence, slashed on evidence) leaves
+// the validator set at the end of that very block: EndBlock raises its "some validator is to be
+// dropped" flag for EVERY validator whose IsToDrop() holds, and the flag forces updateValidators().
+// Decided on the loop that raises the flag: the edge that carries `true` into the loop-carried
+// boolean is governed, inside the loop, by IsToDrop() alone — a second condition (the accumulated
+// reward being non-zero, …) lets a punished validator keep its seat until the next period boundary.
+func checkDropFlag(c *core.Ctx, rule string) {
+	end := c.MustFn(rule, "(*coreV2/minter.Blockchain).EndBlock")
+	if end == nil {
+		return
+	}
+	n := 0
+	for _, fn := range append([]*ssa.Function{end}, c.Helpers(end)...) {
+		for _, b := range fn.Blocks {
+			for _, in := range b.Instrs {
+				ph, ok := in.(*ssa.Phi)
+				if !ok {
+					break
+				}
+				if bt, isB := ph.Type().Underlying().(*types.Basic); !isB || bt.Kind() != types.Bool || !core.InCycle(b) {
+					continue
+				}
+				for i, e := range ph.Edges {
+					k, isK := core.Unwrap(e).(*ssa.Const)
+					if !isK || k.Value == nil || k.Value.String() != "true" {
+						continue
+					}
+					pred := b.Preds[i]
+					gates := core.GatesBefore(pred.Instrs[len(pred.Instrs)-1])
+					hasDrop, other := false, ""
+					for _, g := range gates {
+						if !core.InCycle(g.If.Block()) || !core.ReachFrom(g.If.Block(), nil)[b] || !core.ReachFrom(b, nil)[g.If.Block()] {
+							continue // a condition outside the loop
+						}
+						cond, truth := g.If.Cond, g.PassTrue
+						for {
+							u, isNot := cond.(*ssa.UnOp)
+							if !isNot || u.Op != token.NOT {
+								break
+							}
+							cond, truth = u.X, !truth
+						}
+						if call, isCall := cond.(*ssa.Call); isCall && methodNameOfCall(call) == "IsToDrop" {
+							if truth {
+								hasDrop = true
+							}
+							continue
+						}
+						if other == "" {
+							other = c.PosStr(g.If.Cond.Pos())
+						}
+					}
+					if !hasDrop {
+						continue // another flag
+					}
+					n++
+					c.Check(other == "", rule, fmt.Sprintf("%s/drop-flag#%d", fn.Name(), n), ph.Pos(), "the flag is raised for every validator whose IsToDrop() holds",
+						"the flag that makes EndBlock rebuild the validator set is raised only when, besides IsToDrop(), the condition at "+other+" holds: a punished validator for which it does not hold keeps its seat (and its power in Tendermint) until the next period boundary")
+				}
+			}
+		}
+	}
+	c.Floor(rule, n, 1, "loop-carried drop flags in EndBlock")
+}
+
+// checkTmAddressFollowsKey — votes and evidence name a validator by its Tendermint address, which
+// is derived from the public key and cached next to it. Wherever a candidate's PubKey field is
+// assigned, the cached address is recomputed FROM THE NEW KEY: the value stored into tmAddress
+// derives from the value stored into PubKey (or from a read of PubKey that follows that store), or
+// the function calls the recomputing method after the store. An address computed from the key
+// being replaced makes every later lookup by address miss: the validator can no longer be
+// recorded absent, jailed or slashed.
+func checkTmAddressFollowsKey(c *core.Ctx, rule string) {
+	cand := c.Named(core.PkgState+"/candidates", "Candidate")
+	if cand == nil {
+		c.Unk(rule, "candidates.Candidate", token.NoPos, "type not found")
+		return
+	}
+	// reads of the PubKey field in a function (FieldAddr uses other than the given store)
+	keyReads := func(fn *ssa.Function, except ssa.Instruction) []ssa.Instruction {
+		var out []ssa.Instruction
+		for _, b := range fn.Blocks {
+			for _, in := range b.Instrs {
+				fa, ok := in.(*ssa.FieldAddr)
+				if !ok || fieldNameOf(fa) != "PubKey" || namedOf(fa.X.Type()) != cand {
+					continue
+				}
+				for _, r := range *fa.Referrers() {
+					if r != except {
+						out = append(out, r)
+					}
+				}
+			}
+		}
+		return out
+	}
+	// the methods that recompute the address from the current key: they write tmAddress and read PubKey
+	recompute := map[*ssa.Function]bool{}
+	for _, w := range c.FieldWrites(cand, "tmAddress") {
+		if len(w.Fn.Params) == 1 && len(keyReads(w.Fn, nil)) > 0 {
+			recompute[w.Fn] = true
+		}
+	}
+	n := 0
+	for _, w := range c.FieldWrites(cand, "PubKey") {
+		st, ok := w.Instr.(*ssa.Store)
+		if !ok || w.Fn.Blocks == nil {
+			continue
+		}
+		// constructors that fill a fresh struct are covered by the loader's setTmAddress; here:
+		// assignments to an existing candidate (a parameter/receiver)
+		fa, _ := st.Addr.(*ssa.FieldAddr)
+		if fa == nil {
+			continue
+		}
+		if _, fresh := core.Unwrap(fa.X).(*ssa.Alloc); fresh {
+			continue
+		}
+		n++
+		good, why := false, ""
+		for _, s := range core.Sites(w.Fn) {
+			if h := s.Common.StaticCallee(); h != nil && recompute[h] && core.SameValue(s.Recv(), fa.X) && instrReaches(st, s.Instr) && !instrReaches(s.Instr, st) {
+				good = true
+			}
+		}
+		for _, w2 := range c.FieldWrites(cand, "tmAddress") {
+			if w2.Fn != w.Fn {
+				continue
+			}
+			// the address is set in the same function: from the new value, i.e. not from a read of
+			// the field that precedes the assignment
+			stale := false
+			for _, r := range keyReads(w.Fn, st) {
+				if !core.Dominates(st, r) {
+					stale = true
+				}
+			}
+			if !stale {
+				good = true
+			} else {
+				why = "the address stored at " + c.PosStr(w2.Instr.Pos()) + " is computed from a read of PubKey that precedes the assignment of the new key"
+			}
+		}
+		if why == "" {
+			why = "the cached Tendermint address is not recomputed after the key is assigned"
+		}
+		c.Check(good, rule, core.ShortFn(w.Fn)+"/PubKey", st.Pos(), "the cached Tendermint address is recomputed from the new key", why+": votes and evidence, which name the validator by the address of its NEW key, no longer find it — it cannot be recorded absent, jailed or slashed")
+	}
+	c.Floor(rule, n, 1, "assignments of Candidate.PubKey on an existing candidate")
 }
